@@ -68,11 +68,24 @@ func Refine(cl CaseLine, seed int64) CaseLine {
 			nf[i] = File{P: fl.P, Docs: docs}
 		}
 		c.Files = nf
-		if len(c.Notes) == 0 && r.Intn(2) == 0 {
-			c.Notes = []int{8}
+		// NOTES.txt at every depth (templates/NOTES.txt, templates/sub/NOTES.txt; also in the subchart) x SubNotes,
+		// and a partial: none of them is ever applied
+		if len(c.Notes) == 0 {
+			cand := []int{RankPN, RankPSN}
+			if contains(c.Subs, "s1") {
+				cand = []int{RankS1N, RankS1SN, RankPN, RankPSN} // ascending rank
+			}
+			notes := []int{}
+			for _, n := range cand {
+				if r.Intn(2) == 0 {
+					notes = append(notes, n)
+				}
+			}
+			c.Notes = notes
+			c.SubNotes = r.Intn(2) == 0
 		}
 		if len(c.Parts) == 0 && r.Intn(2) == 0 {
-			c.Parts = []int{9}
+			c.Parts = []int{RankPH}
 		}
 		out.Case = c
 		f = Fmt{CRLF: r.Intn(4) == 0, Sep: r.Intn(4), LeadSep: r.Intn(3) == 0, TrailSep: r.Intn(3) == 0, NoEOL: r.Intn(3) == 0}
@@ -264,7 +277,7 @@ func ChartFiles(c Case, f Fmt, h Host) []*loader.BufferedFile {
 		add(tname(p), fmt.Sprintf("{{- define \"shared\" -}}D%d{{- end -}}\n{{- define \"wrap\" -}}W%d({{ include \"shared\" . }}){{- end -}}\n", p, p))
 	}
 	for _, p := range c.Notes {
-		add(tname(p), "N-"+PathChart[p-1])
+		add(tname(p), NoteText(p))
 	}
 	return out
 }
